@@ -524,7 +524,7 @@ def check(chk):
     # a package whose import path is another package's path + ".T" (in process only: colliding strong symbols would
     # stop the link of a whole end-to-end program)
     ip_worlds.append(G.World("w%d" % n_ip, refs, "%d/dotted" % sd, dict(DOTTED)))
-    n_prog = 4 if thorough else 1
+    n_prog = 3 if thorough else 1
     per_prog = 2 if thorough else 1
     if os.environ.get("VERIF_C14_SKIP_E2E") == "1":      # diagnostic knob (mutation experiments): in-process binding only
         n_prog = 0
@@ -542,7 +542,7 @@ def check(chk):
         fut_bin = ex.submit(C.gotest_compile_injected, "cl", {"zz_verif_c14_test.go": open(HARNESS).read()}, rd, "", True)
         if programs:
             C.llgo_binary()
-        with ThreadPoolExecutor(max_workers=2) as ex2:
+        with ThreadPoolExecutor(max_workers=3) as ex2:
             futs = [ex2.submit(run_e2e_program, chk, pi, ws, judge, stats) for pi, ws in enumerate(programs)]
             testbin = fut_bin.result()
             C.log("C14: injected test built at +%.0fs" % (time.time() - chk.t0))
